@@ -138,11 +138,15 @@ impl Context<'_> {
             // type name would be compared against the exact symbol it
             // resolves to and never match.
             if historical && !matches!(column_of(kind, key), Some("__id")) {
+                // Only the keys the index path would normalize are normalized
+                // here: any other key is compared against the view as written,
+                // as it is in the present, so a non-text value such as
+                // `{confidence: 0.9}` stays the number it is.
                 let slot = match slot {
-                    Slot::Value(value) => {
+                    Slot::Value(value) if column_of(kind, key).is_some() => {
                         Slot::Value(Json::String(self.matcher_text(kind, key, &value)?))
                     }
-                    bind => bind,
+                    other => other,
                 };
                 post.push((key.clone(), slot));
                 continue;
